@@ -1096,26 +1096,14 @@ Qed.
 Lemma link_hits_sound regs g i : In i (link_hits regs g) ->
   exists r, nth_error regs i = Some r /\ contains r g = true.
 Proof.
-  unfold link_hits, link_window. intros Hin.
-  apply hits_from_sound in Hin. destruct Hin as (Hle & r & Hn & Hc). exists r. split; [|exact Hc].
-  apply nth_error_firstn_some in Hn. rewrite nth_error_skipn_ in Hn. rewrite <- Hn. f_equal. lia.
-Qed.
-
-(* ... but not to every one: circular record of 1000, sub-regions 900..50 (origin-spanning), 100..200, 400..500,
-   600..700 give four regions; a gene at 950..980, inside the first region, is linked to none of them when it is
-   added after the regions (the origin-spanning region sorts first, the bisection ends at the other end of the list);
-   a gene at 10..40, in the part after the origin, is linked *)
-Lemma late_gene_witness :
-  let sub i l := mkCA i 0 l in
-  let supply := [sub 0 [mkPart 900 1000 1; mkPart 0 50 1]; sub 1 [mkPart 100 200 1]; sub 2 [mkPart 400 500 1];
-                 sub 3 [mkPart 600 700 1]] in
-  exists regs r, record_regions 1000 true supply = Ok regs /\ In r regs /\
-    contains (rloc r) [mkPart 950 980 1] = true /\ contains (rloc r) [mkPart 10 40 1] = true /\
-    link_hits (map rloc regs) [mkPart 950 980 1] = [] /\
-    link_hits (map rloc regs) [mkPart 10 40 1] = [0%nat].
-Proof.
-  cbn zeta. eexists. eexists. split; [vm_compute; reflexivity|]. split; [left; reflexivity|].
-  repeat split; vm_compute; reflexivity.
+  unfold link_hits, link_window. intros Hin. apply in_app_or in Hin. destruct Hin as [Hin|Hin].
+  - (* the region put in front of the slice: region 0 *)
+    apply hits_from_sound in Hin. destruct Hin as (_ & r & Hn & Hc). exists r. split; [|exact Hc].
+    unfold link_first in Hn. destruct regs as [|r0 rest]; [destruct (i - 0)%nat; discriminate|].
+    destruct (_ && bridges r0); [|destruct (i - 0)%nat; discriminate].
+    destruct i as [|i]; [exact Hn|]. cbn in Hn. destruct i; discriminate.
+  - apply hits_from_sound in Hin. destruct Hin as (Hle & r & Hn & Hc). exists r. split; [|exact Hc].
+    apply nth_error_firstn_some in Hn. rewrite nth_error_skipn_ in Hn. rewrite <- Hn. f_equal. lia.
 Qed.
 
 (* after a history that ends with strip_antismash_annotations no link is left at all *)
@@ -1133,10 +1121,496 @@ Proof.
   - intros g. destruct (lget g (l_cdsreg st)) as [r|] eqn:E; [destruct (H3 g r E)|reflexivity].
 Qed.
 
-Lemma late_gene_refuted :
-  exists N supply regs r g, record_regions N true supply = Ok regs /\ In r regs /\
-    contains (rloc r) g = true /\ link_hits (map rloc regs) g = [].
+
+(* ====================================================================================
+   A gene added after the regions: completeness of the candidates of _link_cds_to_parent (repaired finding
+   late_gene_origin_region_unlinked)
+   ==================================================================================== *)
+(* ---- the binary search on a list that the test splits into a true prefix and a false suffix ---- *)
+Lemma div2_bounds lo hi : (lo < hi)%nat -> (lo <= Nat.div2 (lo + hi) < hi)%nat.
+Proof. intros H. rewrite Nat.div2_div. split.
+  - apply Nat.div_le_lower_bound; lia.
+  - apply Nat.div_lt_upper_bound; lia.
+Qed.
+
+Lemma bisect_go_partition {A} (p : A -> bool) (a b : list A) :
+  (forall x, In x a -> p x = true) -> (forall x, In x b -> p x = false) ->
+  forall fuel lo hi, (lo <= length a <= hi)%nat -> (hi <= length (a ++ b))%nat -> (hi - lo < fuel)%nat ->
+  bisect_go p (a ++ b) fuel lo hi = length a.
 Proof.
-  destruct late_gene_witness as (regs & r & H1 & H2 & H3 & _ & H5 & _).
-  eexists. eexists. exists regs, r. eexists. repeat split; eassumption.
+  intros Ha Hb. induction fuel as [|f IH]; intros lo hi Hk Hhi Hf; [lia|].
+  cbn [bisect_go]. destruct (Nat.ltb lo hi) eqn:Hlt.
+  - apply Nat.ltb_lt in Hlt. pose proof (div2_bounds lo hi Hlt) as Hm.
+    set (mid := Nat.div2 (lo + hi)) in *.
+    destruct (nth_error (a ++ b) mid) as [e|] eqn:Hn.
+    + destruct (Nat.lt_ge_cases mid (length a)) as [Hma|Hma].
+      * rewrite nth_error_app1 in Hn by exact Hma.
+        rewrite (Ha e (nth_error_In _ _ Hn)). apply IH; lia.
+      * rewrite nth_error_app2 in Hn by exact Hma.
+        rewrite (Hb e (nth_error_In _ _ Hn)). apply IH; lia.
+    + apply nth_error_None in Hn. lia.
+  - apply Nat.ltb_ge in Hlt. lia.
+Qed.
+
+Lemma bisect_go_ge {A} (p : A -> bool) l : forall fuel lo hi, (lo <= bisect_go p l fuel lo hi)%nat.
+Proof.
+  induction fuel as [|f IH]; intros lo hi; cbn [bisect_go]; [lia|].
+  destruct (Nat.ltb lo hi) eqn:Hlt; [|lia].
+  apply Nat.ltb_lt in Hlt. pose proof (div2_bounds lo hi Hlt) as Hm.
+  destruct (nth_error l (Nat.div2 (lo + hi))); [|lia].
+  destruct (p a).
+  - specialize (IH (S (Nat.div2 (lo + hi))) hi). lia.
+  - apply IH.
+Qed.
+
+Lemma In_nth_firstn {A} (l : list A) k x : In x (firstn k l) -> exists j, (j < k)%nat /\ nth_error l j = Some x.
+Proof.
+  intros H. apply In_nth_error in H. destruct H as (j & Hj). exists j.
+  assert (j < length (firstn k l))%nat by (apply nth_error_Some; congruence).
+  rewrite firstn_length in H. split; [lia|]. rewrite nth_error_firstn_lt in Hj by lia. exact Hj.
+Qed.
+Lemma In_nth_skipn {A} (l : list A) k x : In x (skipn k l) -> exists j, (k <= j)%nat /\ nth_error l j = Some x.
+Proof.
+  intros H. apply In_nth_error in H. destruct H as (j & Hj). exists (k + j)%nat. split; [lia|].
+  rewrite <- nth_error_skipn_. exact Hj.
+Qed.
+
+(* the test holds at every position before k and fails at every position from k on: bisect_left answers k *)
+Lemma bisect_left_split {A} (p : A -> bool) (l : list A) k : (k <= length l)%nat ->
+  (forall j x, (j < k)%nat -> nth_error l j = Some x -> p x = true) ->
+  (forall j x, (k <= j)%nat -> nth_error l j = Some x -> p x = false) ->
+  bisect_left p l = k.
+Proof.
+  intros Hk Ht Hf. unfold bisect_left. rewrite <- (firstn_skipn k l) at 1.
+  assert (Hlen : length (firstn k l) = k) by (rewrite firstn_length; lia).
+  rewrite <- Hlen at 3.
+  replace (length l) with (length (firstn k l ++ skipn k l)) by (now rewrite firstn_skipn).
+  apply bisect_go_partition.
+  - intros x Hx. apply In_nth_firstn in Hx. destruct Hx as (j & Hj & Hn). exact (Ht j x Hj Hn).
+  - intros x Hx. apply In_nth_skipn in Hx. destruct Hx as (j & Hj & Hn). exact (Hf j x Hj Hn).
+  - rewrite Hlen, app_length, Hlen. lia.
+  - lia.
+  - lia.
+Qed.
+
+(* ---- what the loop over the candidates finds ---- *)
+Lemma hits_from_complete : forall window g k j r, nth_error window j = Some r -> contains r g = true ->
+  In (k + j)%nat (hits_from k window g).
+Proof.
+  induction window as [|r0 t IH]; intros g k j r Hn Hc; [destruct j; discriminate|].
+  cbn [hits_from]. destruct j as [|j].
+  - cbn in Hn. injection Hn as ->. rewrite Hc. left. lia.
+  - cbn [nth_error] in Hn. specialize (IH g (S k) j r Hn Hc). replace (k + S j)%nat with (S k + j)%nat by lia.
+    destruct (contains r0 g); [right|]; exact IH.
+Qed.
+
+(* a region containing the gene at position left - 1 or left lies in the slice *)
+Lemma link_hits_window regs g i r : nth_error regs i = Some r -> contains r g = true ->
+  let left := bisect_left (fun r => coll_lt r g) regs in
+  (left - 1 <= i <= left)%nat -> In i (link_hits regs g).
+Proof.
+  intros Hn Hc left Hi. unfold link_hits, link_window. fold left.
+  set (right := bisect_from (fun r0 => negb (feat_lt g r0)) regs left).
+  assert (Hr : (left <= right)%nat) by (unfold right, bisect_from; apply bisect_go_ge).
+  apply in_or_app. right.
+  replace i with ((left - 1) + (i - (left - 1)))%nat at 1 by lia.
+  apply (hits_from_complete _ g _ _ r); [|exact Hc].
+  rewrite nth_error_firstn_lt by lia. rewrite nth_error_skipn_. rewrite <- Hn. f_equal. lia.
+Qed.
+
+(* region 0, when it crosses the origin and contains the gene, is always among the candidates *)
+Lemma link_hits_first regs g r0 : nth_error regs 0 = Some r0 -> bridges r0 = true -> contains r0 g = true ->
+  In 0%nat (link_hits regs g).
+Proof.
+  intros Hn Hb Hc. unfold link_hits, link_window.
+  set (left := bisect_left (fun r => coll_lt r g) regs).
+  set (right := bisect_from (fun r1 => negb (feat_lt g r1)) regs left).
+  assert (Hr : (left <= right)%nat) by (unfold right, bisect_from; apply bisect_go_ge).
+  apply in_or_app. destruct (left - 1)%nat as [|f] eqn:Ef.
+  - right. change 0%nat with (0 + 0)%nat at 1. apply (hits_from_complete _ g _ _ r0); [|exact Hc].
+    rewrite nth_error_firstn_lt by lia. exact Hn.
+  - left. destruct regs as [|x rest]; [discriminate|]. cbn in Hn. injection Hn as ->.
+    unfold link_first. cbn [Nat.ltb Nat.leb andb]. rewrite Hb. cbn [hits_from]. rewrite Hc. now left.
+Qed.
+
+(* ---- the layouts of the region list: ascending, pairwise disjoint one-part regions, in front of them possibly one
+   region [s, w) + [0, e) crossing the origin, every other region lying between e and s ---- *)
+Definition simple_ok (N : Z) (x : part) : Prop := 0 <= ps x /\ ps x < pe x /\ pe x <= N.
+Fixpoint asc (l : list part) : Prop :=
+  match l with [] => True | x :: t => Forall (fun y => pe x <= ps y) t /\ asc t end.
+Definition cross_ok (N : Z) (p q : part) : Prop :=
+  pst p = 1 /\ pst q = 1 /\ ps q = 0 /\ 0 < pe q /\ pe q <= ps p /\ ps p < pe p /\ pe p = N.
+Notation one := (fun x : part => ([x] : loc)).
+Definition lay (N : Z) (regs : list loc) : Prop :=
+  exists sl, Forall (simple_ok N) sl /\ asc sl /\
+    (regs = map one sl \/
+     exists p q, regs = [p; q] :: map one sl /\ cross_ok N p q /\ Forall (fun x => pe q <= ps x /\ pe x <= ps p) sl).
+
+Lemma asc_nth : forall sl j k x y, asc sl -> (j < k)%nat -> nth_error sl j = Some x -> nth_error sl k = Some y -> pe x <= ps y.
+Proof.
+  induction sl as [|a t IH]; intros j k x y Ha Hjk Hx Hy; [destruct j; discriminate|].
+  destruct Ha as [Hh Ht]. destruct k as [|k]; [lia|]. cbn [nth_error] in Hy. destruct j as [|j].
+  - cbn in Hx. injection Hx as ->. rewrite Forall_forall in Hh. apply Hh. exact (nth_error_In _ _ Hy).
+  - cbn [nth_error] in Hx. apply (IH j k x y Ht); [lia|exact Hx|exact Hy].
+Qed.
+
+(* the comparisons CDSCollection.__lt__(region, gene) that the bisection makes *)
+Lemma cross_bridges N p q : cross_ok N p q -> bridges [p; q] = true.
+Proof.
+  intros (Hp & Hq & Hs & He & Hd & Hn & _). unfold bridges. cbn [is_compound lstrand forallb].
+  rewrite Hp, Hq. cbn. lia.
+Qed.
+
+Lemma cross_kstart N p q : cross_ok N p q -> kstart [p; q] = ps p - pe p.
+Proof.
+  intros H. unfold kstart. rewrite (cross_bridges N p q H). destruct H as (Hp & Hq & Hs & He & Hd & Hn & _).
+  unfold split_bridging. cbn [is_compound negb all_same_strand forallb lstrand]. rewrite Hp, Hq.
+  cbn [Z.eqb andb negb]. cbn [split_fwd rev app].
+  replace (ps p <? ps q) with false by lia. cbn [rev app nonempty andb negb].
+  unfold valid_split. cbn [nonempty andb hull_part map lmin lmax fold_left]. unfold part_overlap, in_part. cbn [ps pe].
+  cbn [sorted_le sorted_ge andb].
+  cbn. match goal with |- context [if ?c then Err E_Value else Ok _] => destruct c eqn:Ec end; [exfalso; lia|].
+  cbn. reflexivity.
+Qed.
+
+(* a one-part region strictly before the gene's start compares less; one that compares less does not start after it *)
+Lemma simple_lt_gene x pg : ps x < pe x -> ps pg < pe pg ->
+  (coll_lt [x] [pg] = true -> ps x <= ps pg) /\ (ps x < ps pg -> coll_lt [x] [pg] = true).
+Proof.
+  intros Hx Hg. unfold coll_lt, kstart.
+  cbn [bridges is_compound contains forallb existsb lstart llen map lmin fold_left fold_right]. unfold part_contains.
+  repeat match goal with |- context [if ?c then _ else _] => destruct c eqn:? end; split; intros H; lia.
+Qed.
+
+(* the crossing region compares less than a gene that lies in a region between its two parts *)
+Lemma cross_lt_gene N p q x pg : cross_ok N p q -> pe q <= ps x -> pe x <= ps p -> ps pg < pe pg ->
+  ps x <= ps pg -> pe pg <= pe x -> coll_lt [p; q] [pg] = true.
+Proof.
+  intros H Hqx Hxp Hg Hs He. unfold coll_lt. rewrite (cross_kstart N p q H).
+  destruct H as (Hp & Hq & Hs0 & He0 & Hd & Hn & _).
+  unfold kstart. cbn [bridges is_compound contains forallb existsb lstart llen map lmin fold_left fold_right]. unfold part_contains.
+  repeat match goal with |- context [if ?c then _ else _] => destruct c eqn:? end; lia.
+Qed.
+
+Lemma contains_one x pg : contains [x] [pg] = true -> ps x <= ps pg /\ pe pg <= pe x.
+Proof. cbn. unfold part_contains. lia. Qed.
+
+(* THE completeness lemma: on such a layout, the region that contains a non-empty one-part gene is found *)
+Lemma link_hits_complete N regs pg i r : lay N regs -> ps pg < pe pg ->
+  nth_error regs i = Some r -> contains r [pg] = true -> In i (link_hits regs [pg]).
+Proof.
+  intros (sl & Hok & Hasc & Hshape) Hg Hn Hc.
+  rewrite Forall_forall in Hok.
+  (* the one-part regions: position j of sl *)
+  assert (Hsimple : forall off, (forall j x, nth_error sl j = Some x -> nth_error regs (off + j) = Some [x]) ->
+            (forall j y, nth_error regs j = Some y -> (j < off)%nat -> coll_lt y [pg] = true) ->
+            (forall j y, nth_error regs (off + j) = Some y -> exists x, nth_error sl j = Some x /\ y = [x]) ->
+            length regs = (off + length sl)%nat ->
+            forall j x, nth_error sl j = Some x -> contains [x] [pg] = true -> In (off + j)%nat (link_hits regs [pg])).
+  { intros off Hreg Hfront Hback Hlen j x Hx Hcx.
+    apply contains_one in Hcx. destruct Hcx as [Hs He].
+    assert (Hxok : simple_ok N x) by (apply Hok; exact (nth_error_In _ _ Hx)).
+    set (k := if coll_lt [x] [pg] then S (off + j) else (off + j)%nat).
+    assert (Hjlen : (j < length sl)%nat) by (apply nth_error_Some; congruence).
+    assert (Hleft : bisect_left (fun r => coll_lt r [pg]) regs = k).
+    { apply bisect_left_split.
+      - unfold k. destruct (coll_lt [x] [pg]); lia.
+      - intros j' y Hj' Hy. destruct (Nat.lt_ge_cases j' off) as [Hlo|Hhi]; [exact (Hfront j' y Hy Hlo)|].
+        replace j' with (off + (j' - off))%nat in Hy by lia.
+        destruct (Hback _ _ Hy) as (x' & Hx' & ->).
+        assert (Hx'ok : simple_ok N x') by (apply Hok; exact (nth_error_In _ _ Hx')).
+        destruct Hx'ok as (Hx'0 & Hx'ne & Hx'N).
+        destruct (Nat.eq_dec (j' - off) j) as [E|NE].
+        + rewrite E in Hx'. assert (x' = x) by congruence. subst x'.
+          unfold k in Hj'. destruct (coll_lt [x] [pg]) eqn:Ecl; [reflexivity|lia].
+        + assert (Hlt : (j' - off < j)%nat) by (unfold k in Hj'; destruct (coll_lt [x] [pg]); lia).
+          pose proof (asc_nth sl _ _ x' x Hasc Hlt Hx' Hx) as Hord.
+          apply (simple_lt_gene x' pg); [exact Hx'ne|exact Hg|]. lia.
+      - intros j' y Hj' Hy.
+        assert (Hoff : (off <= j')%nat) by (unfold k in Hj'; destruct (coll_lt [x] [pg]); lia).
+        replace j' with (off + (j' - off))%nat in Hy by lia.
+        destruct (Hback _ _ Hy) as (x' & Hx' & ->).
+        assert (Hx'ok : simple_ok N x') by (apply Hok; exact (nth_error_In _ _ Hx')).
+        destruct Hx'ok as (Hx'0 & Hx'ne & Hx'N).
+        destruct (Nat.eq_dec (j' - off) j) as [E|NE].
+        + rewrite E in Hx'. assert (x' = x) by congruence. subst x'.
+          unfold k in Hj'. destruct (coll_lt [x] [pg]) eqn:Ecl; [lia|reflexivity].
+        + assert (Hlt : (j < j' - off)%nat) by (unfold k in Hj'; destruct (coll_lt [x] [pg]); lia).
+          pose proof (asc_nth sl _ _ x x' Hasc Hlt Hx Hx') as Hord.
+          destruct (coll_lt [x'] [pg]) eqn:Ecl; [|reflexivity].
+          apply (simple_lt_gene x' pg) in Ecl; [|exact Hx'ne|exact Hg]. lia. }
+    apply (link_hits_window regs [pg] (off + j)%nat [x]).
+    - apply Hreg. exact Hx.
+    - cbn. unfold part_contains. lia.
+    - cbv zeta. rewrite Hleft. unfold k. destruct (coll_lt [x] [pg]); lia. }
+  destruct Hshape as [->|(p & q & -> & Hcross & Hbetween)].
+  - (* no crossing region *)
+    assert (Hi : exists x, nth_error sl i = Some x /\ r = [x]).
+    { rewrite nth_error_map in Hn. destruct (nth_error sl i) as [x|]; [|discriminate]. exists x. cbn in Hn. split; congruence. }
+    destruct Hi as (x & Hx & ->).
+    apply (Hsimple 0%nat) with (j := i) (x := x); try assumption.
+    + intros j y Hy. cbn. rewrite nth_error_map, Hy. reflexivity.
+    + intros j y _ Hlt. lia.
+    + intros j y Hy. cbn in Hy. rewrite nth_error_map in Hy. destruct (nth_error sl j) as [x'|]; [|discriminate].
+      exists x'. cbn in Hy. split; congruence.
+    + rewrite map_length. reflexivity.
+  - destruct i as [|i].
+    + (* the crossing region itself *)
+      cbn in Hn. injection Hn as <-.
+      apply (link_hits_first _ [pg] [p; q]); [reflexivity|exact (cross_bridges N p q Hcross)|exact Hc].
+    + cbn [nth_error] in Hn.
+      assert (Hi : exists x, nth_error sl i = Some x /\ r = [x]).
+      { rewrite nth_error_map in Hn. destruct (nth_error sl i) as [x|]; [|discriminate]. exists x. cbn in Hn. split; congruence. }
+      destruct Hi as (x & Hx & ->).
+      change (S i) with (1 + i)%nat. apply (Hsimple 1%nat) with (j := i) (x := x); try assumption.
+      * intros j y Hy. cbn. rewrite nth_error_map, Hy. reflexivity.
+      * intros j y Hy Hlt. assert (j = 0%nat) by lia. subst j. cbn in Hy. injection Hy as <-.
+        rewrite Forall_forall in Hbetween. destruct (Hbetween x (nth_error_In _ _ Hx)) as [Hqx Hxp].
+        apply contains_one in Hc. destruct Hc as [Hs He].
+        exact (cross_lt_gene N p q x pg Hcross Hqx Hxp Hg Hs He).
+      * intros j y Hy. cbn in Hy. rewrite nth_error_map in Hy. destruct (nth_error sl j) as [x'|]; [|discriminate].
+        exists x'. cbn in Hy. split; congruence.
+      * cbn [length]. rewrite map_length. reflexivity.
+Qed.
+
+(* ---- add_region keeps the layout ---- *)
+Definition reg_ok (N : Z) (l : loc) : Prop :=
+  (exists x, l = [x] /\ simple_ok N x) \/ (exists p q, l = [p; q] /\ cross_ok N p q).
+
+Lemma part_overlap_false a b : ps a < pe a -> ps b < pe b -> part_overlap a b = false -> pe a <= ps b \/ pe b <= ps a.
+Proof. unfold part_overlap, in_part. lia. Qed.
+
+Lemma cross_not_lt N n p q : cross_ok N p q -> simple_ok N n -> pe q <= ps n -> pe n <= ps p -> coll_lt [n] [p; q] = false.
+Proof.
+  intros H (Hn0 & Hn1 & Hn2) Hqn Hnp. unfold coll_lt. rewrite (cross_kstart N p q H).
+  destruct H as (Hp & Hq & Hs0 & He0 & Hd & Hn & HN).
+  unfold kstart. cbn [bridges is_compound contains forallb existsb lstart llen map lmin fold_left fold_right]. unfold part_contains.
+  repeat match goal with |- context [if ?c then _ else _] => destruct c eqn:? end; lia.
+Qed.
+Lemma cross_lt_simple N x p q : cross_ok N p q -> simple_ok N x -> pe q <= ps x -> pe x <= ps p -> coll_lt [p; q] [x] = true.
+Proof.
+  intros H (Hn0 & Hn1 & Hn2) Hqn Hnp. unfold coll_lt. rewrite (cross_kstart N p q H).
+  destruct H as (Hp & Hq & Hs0 & He0 & Hd & Hn & HN).
+  unfold kstart. cbn [bridges is_compound contains forallb existsb lstart llen map lmin fold_left fold_right]. unfold part_contains.
+  repeat match goal with |- context [if ?c then _ else _] => destruct c eqn:? end; lia.
+Qed.
+
+(* a one-part region that overlaps none of the ascending one-part regions goes between those before and those after it *)
+Lemma add_index_simple N n (mk : part -> cregion) : (forall x, rloc (mk x) = [x]) -> simple_ok N n ->
+  forall sl off, Forall (simple_ok N) sl -> asc sl ->
+  Forall (fun x => overlap [n] [x] = false) sl ->
+  exists sl1 sl2, sl = sl1 ++ sl2 /\ add_index [n] (map mk sl) off = (off + length sl1)%nat /\
+    Forall (fun x => pe x <= ps n) sl1 /\ Forall (fun y => pe n <= ps y) sl2.
+Proof.
+  intros Hmk (Hn0 & Hn1 & Hn2). induction sl as [|x t IH]; intros off Hok Hasc Hno.
+  - exists [], []. cbn. repeat split; try constructor. lia.
+  - inversion Hok as [|? ? (Hx0 & Hx1 & Hx2) Hok']; subst. inversion Hno as [|? ? Hox Hno']; subst.
+    destruct Hasc as [Hxt Hasc'].
+    destruct (simple_coll_lt n x Hn1 Hx1 Hox) as [Hcl Hclf].
+    cbn [map add_index]. rewrite Hmk. destruct (coll_lt [n] [x]) eqn:E.
+    + exists [], (x :: t). cbn [app length]. repeat split; [lia|constructor|].
+      constructor; [lia|]. rewrite Forall_forall in Hxt |- *. intros y Hy. specialize (Hxt y Hy). lia.
+    + destruct (IH (S off) Hok' Hasc' Hno') as (sl1 & sl2 & -> & Hidx & H1 & H2).
+      exists (x :: sl1), sl2. cbn [app length]. repeat split; [lia| |exact H2].
+      constructor; [apply Hclf; reflexivity|exact H1].
+Qed.
+
+Lemma asc_app_intro : forall a b, asc a -> asc b -> (forall x y, In x a -> In y b -> pe x <= ps y) -> asc (a ++ b).
+Proof.
+  induction a as [|x a IH]; intros b Ha Hb Hab; [exact Hb|]. destruct Ha as [Hx Ha]. cbn [app asc]. split.
+  - apply Forall_app. split; [exact Hx|]. apply Forall_forall. intros y Hy. apply Hab; [now left|exact Hy].
+  - apply IH; [exact Ha|exact Hb|]. intros u v Hu Hv. apply Hab; [now right|exact Hv].
+Qed.
+Lemma asc_app_inv : forall a b, asc (a ++ b) -> asc a /\ asc b /\ (forall x y, In x a -> In y b -> pe x <= ps y).
+Proof.
+  induction a as [|x a IH]; intros b H; [split; [exact I|split; [exact H|intros ? ? []]]|].
+  destruct H as [Hx H]. destruct (IH b H) as (Ha & Hb & Hab). apply Forall_app in Hx. destruct Hx as [Hxa Hxb].
+  split; [split; assumption|]. split; [exact Hb|]. intros u v [<-|Hu] Hv; [|now apply Hab].
+  rewrite Forall_forall in Hxb. now apply Hxb.
+Qed.
+
+Lemma map_insert_at {A B} (f : A -> B) i x l : map f (insert_at i x l) = insert_at i (f x) (map f l).
+Proof. unfold insert_at. rewrite map_app, firstn_map, skipn_map. reflexivity. Qed.
+
+Lemma add_index_locs new : forall regs regs' i, map rloc regs = map rloc regs' -> add_index new regs i = add_index new regs' i.
+Proof.
+  induction regs as [|a t IH]; intros [|b t'] i E; try discriminate; [reflexivity|].
+  cbn in E. injection E as Eh Et. cbn [add_index]. rewrite Eh. destruct (coll_lt new (rloc b)); [reflexivity|]. now apply IH.
+Qed.
+
+Lemma skipn_length_app_ {A} (a b : list A) : skipn (length a) (a ++ b) = b.
+Proof. induction a as [|x a IH]; [reflexivity|exact IH]. Qed.
+Lemma firstn_length_app_ {A} (a b : list A) : firstn (length a) (a ++ b) = a.
+Proof. induction a as [|x a IH]; [reflexivity|cbn [length app firstn]; now rewrite IH]. Qed.
+
+Lemma lay_add_region N regs r regs' : lay N (map rloc regs) -> reg_ok N (rloc r) ->
+  add_region N regs r = Ok regs' -> lay N (map rloc regs').
+Proof.
+  intros (sl & Hok & Hasc & Hshape) Hr H. unfold add_region in H.
+  destruct ((lstart (rloc r) <? 0) || (N <? lend (rloc r))); [discriminate|].
+  unfold add_scan in H. destruct (existsb (fun ex => overlap (rloc r) (rloc ex)) regs) eqn:Hex; [discriminate|].
+  cbn [bind] in H. injection H as <-. rewrite map_insert_at.
+  assert (Hno : forall l, In l (map rloc regs) -> overlap (rloc r) l = false).
+  { intros l Hl. apply in_map_iff in Hl. destruct Hl as (ex & <- & Hin).
+    destruct (overlap (rloc r) (rloc ex)) eqn:E; [|reflexivity].
+    assert (existsb (fun ex => overlap (rloc r) (rloc ex)) regs = true) by (apply existsb_exists; exists ex; split; assumption).
+    congruence. }
+  set (mk := fun x : part => mkCR [x] [] []).
+  destruct Hr as [(n & En & Hn)|(p & q & En & Hpq)]; rewrite En in *.
+  - (* a one-part region *)
+    destruct Hshape as [E|(p & q & E & Hcross & Hbetween)].
+    + assert (Hnosl : Forall (fun x => overlap [n] [x] = false) sl).
+      { apply Forall_forall. intros x Hx. apply Hno. rewrite E. apply in_map_iff. exists x. split; [reflexivity|exact Hx]. }
+      destruct (add_index_simple N n mk (fun x => eq_refl) Hn sl 0%nat Hok Hasc Hnosl) as (sl1 & sl2 & Esl & Hidx & H1 & H2).
+      rewrite (add_index_locs [n] regs (map mk sl) 0%nat) by (rewrite E, map_map; reflexivity).
+      rewrite Hidx, E, Esl. cbn [Nat.add]. exists (sl1 ++ n :: sl2).
+      rewrite Esl in Hok, Hasc. apply Forall_app in Hok. destruct Hok as [Hok1 Hok2].
+      destruct (asc_app_inv _ _ Hasc) as (Ha1 & Ha2 & Ha12).
+      split; [apply Forall_app; split; [exact Hok1|constructor; assumption]|]. split.
+      * apply asc_app_intro; [exact Ha1|split; [exact H2|exact Ha2]|].
+        intros x y Hx [<-|Hy]; [rewrite Forall_forall in H1; now apply H1|now apply Ha12].
+      * left. unfold insert_at. rewrite map_app. rewrite <- (map_length (fun x => [x] : loc) sl1).
+        rewrite firstn_length_app_, skipn_length_app_. rewrite map_app. reflexivity.
+    + assert (Hnosl : Forall (fun x => overlap [n] [x] = false) sl).
+      { apply Forall_forall. intros x Hx. apply Hno. rewrite E. right. apply in_map_iff. exists x. split; [reflexivity|exact Hx]. }
+      assert (Hnc : overlap [n] [p; q] = false) by (apply Hno; rewrite E; now left).
+      destruct Hn as (Hn0 & Hn1 & Hn2). pose proof Hcross as (Hp & Hq & Hs0 & He0 & Hd & Hpn & HN).
+      cbn [overlap existsb] in Hnc. rewrite !orb_false_r in Hnc. apply orb_false_iff in Hnc. destruct Hnc as [Hnp Hnq].
+      apply (part_overlap_false n p Hn1 Hpn) in Hnp. apply (part_overlap_false n q Hn1) in Hnq; [|lia].
+      assert (Hqn : pe q <= ps n) by lia. assert (Hnp' : pe n <= ps p) by lia.
+      destruct (add_index_simple N n mk (fun x => eq_refl) (conj Hn0 (conj Hn1 Hn2)) sl 1%nat Hok Hasc Hnosl)
+        as (sl1 & sl2 & Esl & Hidx & H1 & H2).
+      rewrite (add_index_locs [n] regs (mkCR [p; q] [] [] :: map mk sl) 0%nat) by (rewrite E; cbn [map rloc]; rewrite map_map; reflexivity).
+      cbn [add_index rloc]. rewrite (cross_not_lt N n p q Hcross (conj Hn0 (conj Hn1 Hn2)) Hqn Hnp').
+      rewrite Hidx, E, Esl. exists (sl1 ++ n :: sl2).
+      rewrite Esl in Hok, Hasc, Hbetween. apply Forall_app in Hok. destruct Hok as [Hok1 Hok2].
+      apply Forall_app in Hbetween. destruct Hbetween as [Hb1 Hb2].
+      destruct (asc_app_inv _ _ Hasc) as (Ha1 & Ha2 & Ha12).
+      split; [apply Forall_app; split; [exact Hok1|constructor; [repeat split; assumption|exact Hok2]]|]. split.
+      * apply asc_app_intro; [exact Ha1|split; [exact H2|exact Ha2]|].
+        intros x y Hx [<-|Hy]; [rewrite Forall_forall in H1; now apply H1|now apply Ha12].
+      * right. exists p, q. split; [|split; [exact Hcross|]].
+        -- unfold insert_at. change (1 + length sl1)%nat with (S (length sl1)). cbn [firstn skipn app].
+           rewrite map_app. rewrite <- (map_length (fun x => [x] : loc) sl1).
+           rewrite firstn_length_app_, skipn_length_app_. rewrite map_app. reflexivity.
+        -- apply Forall_app. split; [exact Hb1|constructor; [split; assumption|exact Hb2]].
+  - (* a region crossing the origin: the record has none yet, and it goes to the front *)
+    pose proof Hpq as (Hp & Hq & Hs0 & He0 & Hd & Hpn & HN).
+    destruct Hshape as [E|(p' & q' & E & Hcross & Hbetween)].
+    2:{ exfalso. assert (Hnc : overlap [p; q] [p'; q'] = false) by (apply Hno; rewrite E; now left).
+        destruct Hcross as (Hp' & Hq' & Hs0' & He0' & Hd' & Hpn' & HN').
+        cbn [overlap existsb] in Hnc. unfold part_overlap, in_part in Hnc. lia. }
+    assert (Hbetween : Forall (fun x => pe q <= ps x /\ pe x <= ps p) sl).
+    { apply Forall_forall. intros x Hx.
+      assert (Hnc : overlap [p; q] [x] = false) by (apply Hno; rewrite E; apply in_map_iff; exists x; split; [reflexivity|exact Hx]).
+      rewrite Forall_forall in Hok. destruct (Hok x Hx) as (Hx0 & Hx1 & Hx2).
+      cbn [overlap existsb] in Hnc. unfold part_overlap, in_part in Hnc. lia. }
+    exists sl. split; [exact Hok|]. split; [exact Hasc|]. right. exists p, q. split; [|split; assumption].
+    destruct sl as [|x t].
+    + destruct regs; [|discriminate]. reflexivity.
+    + destruct regs as [|r0 regs0]; [discriminate|]. cbn [map] in E. injection E as E0 Et.
+      cbn [add_index]. rewrite E0.
+      inversion Hbetween as [|? ? [Hqx Hxp] _]; subst. inversion Hok as [|? ? Hxok _]; subst.
+      rewrite (cross_lt_simple _ x p q Hpq Hxok Hqx Hxp). unfold insert_at. cbn [firstn skipn app map]. rewrite E0, Et. reflexivity.
+Qed.
+
+Lemma add_region_incl N regs r regs' : add_region N regs r = Ok regs' -> In r regs' /\ incl regs regs'.
+Proof.
+  unfold add_region. destruct (_ || _); [discriminate|]. destruct (add_scan (rloc r) regs 0) as [i|]; [|discriminate].
+  cbn [bind]. intros H. injection H as <-. unfold insert_at. split.
+  - apply in_or_app. right. now left.
+  - intros x Hx. rewrite <- (firstn_skipn i regs) in Hx. apply in_app_or in Hx. apply in_or_app.
+    destruct Hx; [now left|right; now right].
+Qed.
+
+Lemma add_sections_incl N : forall secs regs out, add_sections N regs secs = Ok out -> incl regs out.
+Proof.
+  induction secs as [|[l areas] t IH]; intros regs out H.
+  - cbn in H. injection H as <-. apply incl_refl.
+  - cbn [add_sections] in H. destruct (split_kinds areas) as [cs ss].
+    destruct (region_init cs ss) as [reg|]; [|discriminate]. cbn [bind] in H.
+    destruct (add_region N regs reg) as [regs'|] eqn:Ea; [|discriminate]. cbn [bind] in H.
+    destruct (add_region_incl _ _ _ _ Ea) as [_ Hi]. intros x Hx. apply (IH _ _ H). now apply Hi.
+Qed.
+
+Lemma add_sections_lay N : forall secs regs out, add_sections N regs secs = Ok out ->
+  lay N (map rloc regs) -> Forall (fun r => reg_ok N (rloc r)) out -> lay N (map rloc out).
+Proof.
+  induction secs as [|[l areas] t IH]; intros regs out H Hlay Hok.
+  - cbn in H. injection H as <-. exact Hlay.
+  - cbn [add_sections] in H. destruct (split_kinds areas) as [cs ss].
+    destruct (region_init cs ss) as [reg|]; [|discriminate]. cbn [bind] in H.
+    destruct (add_region N regs reg) as [regs'|] eqn:Ea; [|discriminate]. cbn [bind] in H.
+    apply (IH _ _ H); [|exact Hok].
+    apply (lay_add_region N regs reg regs' Hlay); [|exact Ea].
+    rewrite Forall_forall in Hok. apply Hok. apply (add_sections_incl _ _ _ _ H). exact (proj1 (add_region_incl _ _ _ _ Ea)).
+Qed.
+
+Lemma lay_nil N : lay N [].
+Proof. exists []. split; [constructor|]. split; [exact I|]. now left. Qed.
+
+(* every region list that create_regions builds on a record without regions, its locations being well-formed *)
+Lemma late_gene_complete N circular cands subs regs : create_regions N circular [] cands subs = Ok regs ->
+  Forall (fun r => reg_ok N (rloc r)) regs ->
+  forall pg i r, ps pg < pe pg -> nth_error regs i = Some r -> contains (rloc r) [pg] = true ->
+  In i (link_hits (map rloc regs) [pg]).
+Proof.
+  intros H Hok pg i r Hg Hn Hc. unfold create_regions in H.
+  destruct (csections (wrap_of N circular) cands subs) as [secs|]; [|discriminate]. cbn [bind] in H.
+  apply (link_hits_complete N (map rloc regs) pg i (rloc r)); [|exact Hg| |exact Hc].
+  - exact (add_sections_lay N secs [] regs H (lay_nil N) Hok).
+  - rewrite nth_error_map, Hn. reflexivity.
+Qed.
+
+(* on such a layout only region 0 can cross the origin *)
+Lemma lay_bridges_first N regs i r : lay N regs -> nth_error regs i = Some r -> bridges r = true -> i = 0%nat.
+Proof.
+  intros (sl & _ & _ & Hshape) Hn Hb. destruct Hshape as [->|(p & q & -> & _)].
+  - rewrite nth_error_map in Hn. destruct (nth_error sl i); [|discriminate]. cbn in Hn. injection Hn as <-. discriminate.
+  - destruct i as [|i]; [reflexivity|]. cbn [nth_error] in Hn. rewrite nth_error_map in Hn.
+    destruct (nth_error sl i); [|discriminate]. cbn in Hn. injection Hn as <-. discriminate.
+Qed.
+
+(* ... and any gene, of whatever shape, that region 0 contains while it crosses the origin is found *)
+Lemma late_gene_complete_crossing N circular cands subs regs : create_regions N circular [] cands subs = Ok regs ->
+  Forall (fun r => reg_ok N (rloc r)) regs ->
+  forall g i r, nth_error regs i = Some r -> bridges (rloc r) = true -> contains (rloc r) g = true ->
+  i = 0%nat /\ In i (link_hits (map rloc regs) g).
+Proof.
+  intros H Hok g i r Hn Hb Hc. unfold create_regions in H.
+  destruct (csections (wrap_of N circular) cands subs) as [secs|]; [|discriminate]. cbn [bind] in H.
+  pose proof (add_sections_lay N secs [] regs H (lay_nil N) Hok) as Hlay.
+  assert (Hn' : nth_error (map rloc regs) i = Some (rloc r)) by (rewrite nth_error_map, Hn; reflexivity).
+  pose proof (lay_bridges_first N _ i _ Hlay Hn' Hb) as ->. split; [reflexivity|].
+  exact (link_hits_first _ g (rloc r) Hn' Hb Hc).
+Qed.
+
+(* the witness of the repaired finding: circular record of 1000, sub-regions 900..50 (origin-spanning), 100..200, 400..500,
+   600..700 give four regions; the genes 950..980 and 10..40, both inside the first region, are linked to it when they
+   are added after the regions (before the repair the first was linked to nothing), 120..150 to the second region *)
+Lemma late_gene_witness :
+  let sub i l := mkCA i 0 l in
+  let supply := [sub 0 [mkPart 900 1000 1; mkPart 0 50 1]; sub 1 [mkPart 100 200 1]; sub 2 [mkPart 400 500 1];
+                 sub 3 [mkPart 600 700 1]] in
+  exists regs, record_regions 1000 true supply = Ok regs /\ Forall (fun r => reg_ok 1000 (rloc r)) regs /\
+    link_hits (map rloc regs) [mkPart 950 980 1] = [0%nat] /\
+    link_hits (map rloc regs) [mkPart 10 40 1] = [0%nat] /\
+    link_hits (map rloc regs) [mkPart 120 150 1] = [1%nat] /\
+    link_hits (map rloc regs) [mkPart 300 320 1] = [].
+Proof.
+  cbn zeta. eexists. split; [vm_compute; reflexivity|]. split.
+  - repeat apply Forall_cons; [| | | |apply Forall_nil]; cbn [rloc].
+    + right. eexists. eexists. split; [reflexivity|]. unfold cross_ok. cbn. lia.
+    + left. eexists. split; [reflexivity|]. unfold simple_ok. cbn. lia.
+    + left. eexists. split; [reflexivity|]. unfold simple_ok. cbn. lia.
+    + left. eexists. split; [reflexivity|]. unfold simple_ok. cbn. lia.
+  - repeat split; vm_compute; reflexivity.
+Qed.
+
+Lemma create_regions_lay N circular cands subs regs : create_regions N circular [] cands subs = Ok regs ->
+  Forall (fun r => reg_ok N (rloc r)) regs -> lay N (map rloc regs).
+Proof.
+  intros H Hok. unfold create_regions in H.
+  destruct (csections (wrap_of N circular) cands subs) as [secs|]; [|discriminate]. cbn [bind] in H.
+  exact (add_sections_lay N secs [] regs H (lay_nil N) Hok).
 Qed.
